@@ -9,6 +9,8 @@ from . import c13
 ID = 'C07'
 LEVEL = 'exploration'
 FLAVOR = 'tsan'
+# a failure depends on the schedule: it is confirmed when 2 of up to 40 re-runs of the same case in fresh processes fail again
+CONFIRM = (40, 2)
 RULE = ('Hypothesis draws a stylesheet composed of 2-5 observation templates that touch every lazily initialised facility (keys, xsl:number counters, '
         'document(), format-number, sort with collation, id(), generate-id(), pattern matching through modes, strip-space, messages) x a document x the '
         'shared-source form (native parsed source, Xerces DOM wrapped in thread-safe mode) x N in 2..8 threads x 1..6 transformations per thread x a '
